@@ -14,7 +14,7 @@ export VERIF_DIR="$W/verif" CARGO_NET_OFFLINE=true
 PROPS="C01 C02 C03 C04 C05 C06 C07 C10 C11 C12 C13 C15 C17 C20"
 declare -A RUNS=( [C01]=300000 [C02]=120000 [C03]=300000 [C04]=200000 [C05]=250000 [C06]=400000 [C07]=16000 [C10]=300000 [C11]=4000 [C12]=4000 [C13]=2400 [C15]=100000 [C17]=16 [C20]=200000 )
 out="$W/matrix.tsv"; : > "$out"
-build() { (cd "$W/verif/sim" && cargo build --release --offline >/dev/null 2>&1) && (cd "$W/verif/sim-threads" && cargo build --release --offline >/dev/null 2>&1); }
+build() { (cd "$W/verif/sim" && cargo build --release --offline >/dev/null 2>&1 && cargo build --profile shipped --offline >/dev/null 2>&1) && (cd "$W/verif/sim-threads" && cargo build --release --offline >/dev/null 2>&1); }
 runall() { # $1 = label
   for p in $PROPS; do
     n=$(( ${RUNS[$p]} / DIV )); [ "$p" = C17 ] && n=16
